@@ -705,9 +705,10 @@ class TypeTransformer:
             # strict equal. not isinstance, like datetime is instance of date
             return data
         if isinstance(t, ForwardRef):
-            if not t.__forward_evaluated__:
-                raise TypeError(f"ForwardRef: {t} not evaluated")
-            t = t.__forward_value__
+            # a reference that reaches a conversion has not been resolved by its declaration (resolved ones are
+            # rewritten into the types). an evaluation found in the object is not ours: typing shares these objects
+            # between declarations, and another declaration's resolution keeps its result there for a moment
+            raise TypeError(f"ForwardRef: {t} not evaluated")
         # the converter captured when the type was declared may have been superseded by a later
         # registration: resolve again (memoised), the captured one is only the fallback
         resolved = self.resolver_transformer(t)
@@ -718,9 +719,8 @@ class TypeTransformer:
 
     def __call__(self, data, t: Type[T]) -> T:
         if isinstance(t, ForwardRef):
-            if not t.__forward_evaluated__:
-                raise TypeError(f"ForwardRef: {t} not evaluated")
-            t = t.__forward_value__
+            # (see apply)
+            raise TypeError(f"ForwardRef: {t} not evaluated")
         if type(data) == t:
             # strict equal. not isinstance, like datetime is instance of date
             return data
